@@ -127,6 +127,13 @@ func run[T signal.SignalTypes](c *Case) (res kit.Result) {
 				if stamp%4 == 2 {
 					v = kit.As[T](kit.FV(math.Copysign(0, -1))) // -0.0 for floating types, 0 for integer ones
 				}
+				if stamp%16 == 7 && kit.KindOf[T]() == kit.Float { // a subnormal, an infinity, a fraction
+					f := []float64{float64(math.SmallestNonzeroFloat32) * 5, math.Inf(-1), 0.3125, -math.SmallestNonzeroFloat64}[(stamp/16)%4]
+					if kit.BitsOf[T]() == 32 && f == -math.SmallestNonzeroFloat64 {
+						f = -float64(math.SmallestNonzeroFloat32)
+					}
+					v = kit.As[T](kit.FV(f))
+				}
 				sr.SetSample(p, v)
 				m[p] = v
 			}
